@@ -82,7 +82,7 @@ def assemble(ctx, kind, v, body, seg_meta=0, direction=None, pdu_type=0):
 def build(ctx, kind, cfg, var=None):
     var = dict(var or {})
     idw, seqw, crc, large = cfg
-    conf, v = sym_conf(ctx, idw, seqw, crc=crc, large=large, segctrl=(None if kind == "filedata" else 0))
+    conf, v = sym_conf(ctx, idw, seqw, crc=crc, large=large)
     before = conf_snapshot(conf)
     n = fss(cfg)
     fmax = (1 << (8 * n)) - 1
@@ -239,6 +239,26 @@ def build(ctx, kind, cfg, var=None):
         return Built(kind, pdu, assemble(ctx, kind, v, body, seg_meta=(0 if sm is None else 1), pdu_type=1), check, conf, v,
                      before, dict(params=params, vals=dict(data=data, off=off, sm=sm)))
     raise ValueError(kind)
+
+
+class LenCtx(__import__("symx.core", fromlist=["ConcreteCtx"]).ConcreteCtx):
+    """concrete default run (all inputs at their defaults, assumptions ignored): used to learn packed lengths and to obtain
+    concrete 'other' packets"""
+
+    def __init__(self):
+        super().__init__({})
+
+    def assume(self, cond):
+        pass
+
+
+def other_packets(kind, cfg, var=None):
+    """concrete valid PDUs of the same kind in clearly different header configurations (for independence checks)"""
+    idw, seqw, crc, large = cfg
+    out = []
+    for c2 in ((8 if idw != 8 else 1, 2 if seqw != 2 else 4, 1 - crc, 1 - large), (4 if idw != 4 else 2, 8 if seqw != 8 else 1, crc, large)):
+        out.append(bytes(build(LenCtx(), kind, c2, var).pdu.pack()))
+    return out
 
 
 def variants(kind, tier):
